@@ -133,6 +133,17 @@ Proof.
   destruct cond; [|rewrite cmp_eval_neg]; rewrite E; destruct bb; reflexivity.
 Qed.
 
+Lemma x_dup q v L A s K : nth_error C q = Some IDup ->
+  star C (St q L A (v :: s) K) (St (S q) L A (v :: v :: s) K).
+Proof. intros H. one H. reflexivity. Qed.
+
+Lemma x_eq q (num : bool) tv v m L A s K :
+  nth_error C q = Some (if num then ICmp CEq else IEqual) -> val_match num tv v = Ok m ->
+  star C (St q L A (v :: tv :: s) K) (St (S q) L A (VBool m :: s) K).
+Proof.
+  intros H Hm. one H. destruct num, tv, v; simpl in Hm; try discriminate; inv Hm; reflexivity.
+Qed.
+
 Lemma x_call q t L A s K : nth_error C q = Some (ICall t) ->
   star C (St q L A s K) (St t [] [] s (Frame (S q) L A :: K)).
 Proof. intros H. one H. reflexivity. Qed.
@@ -214,66 +225,92 @@ Definition sim_call (n : nat) : Prop := forall f vs s K,
   | _ => True
   end.
 
-(* where a statement leaves the machine, by outcome; [qn]: the pc after normal completion *)
-Definition out_post (o : outcome) (qn brk cont : nat) (s0 : state) (L' A' s : list val) (K : list frame) : Prop :=
+(* where a statement leaves the machine, by outcome; [qn]: the pc after normal completion; [dc] / [dr]: the number of
+   switch tags (on top of the stack [s]) that continue / return drop *)
+Definition out_post (o : outcome) (qn brk cont dc dr : nat) (s0 : state) (L' A' s : list val) (K : list frame) : Prop :=
   match o with
   | ONormal => star C s0 (St qn L' A' s K)
   | OBreak => star C s0 (St brk L' A' s K)
-  | OContinue => star C s0 (St cont L' A' s K)
-  | OReturn vs => exists qr, nth_error C qr = Some IRet /\ star C s0 (St qr L' A' (vs ++ s) K)
+  | OContinue => star C s0 (St cont L' A' (skipn dc s) K)
+  | OReturn vs => exists qr, nth_error C qr = Some IRet /\ star C s0 (St qr L' A' (vs ++ skipn dr s) K)
   end.
 
-Definition stmt_post (g : cenv) (next : nat) (st : stmt) (q brk cont : nat) (L A s : list val) (K : list frame)
+Definition stmt_post (g : cenv) (next : nat) (st : stmt) (q brk cont dc dr : nat) (L A s : list val) (K : list frame)
            (res : res (outcome * env)) : Prop :=
   match res with
   | Ok (o, r') =>
       exists ext L' A', length L' = length L /\ length A' = length A /\ menv r' (ext ++ g) L' A' /\
         (o = ONormal -> ext ++ g = env_after g next st) /\
-        out_post o (q + size_stmt fr st) brk cont (St q L A s K) L' A' s K
+        out_post o (q + size_stmt fr dc dr st) brk cont dc dr (St q L A s K) L' A' s K
   | Fault => goes_wrong C (St q L A s K)
   | _ => True
   end.
 
 (* the same after leaving the scope: the environment is back to the names of [g] *)
-Definition block_post (g : cenv) (qn q brk cont : nat) (L A s : list val) (K : list frame)
+Definition block_post (g : cenv) (qn q brk cont dc dr : nat) (L A s : list val) (K : list frame)
            (res : res (outcome * env)) : Prop :=
   match res with
   | Ok (o, r') =>
       exists L' A', length L' = length L /\ length A' = length A /\ menv r' g L' A' /\
-        out_post o qn brk cont (St q L A s K) L' A' s K
+        out_post o qn brk cont dc dr (St q L A s K) L' A' s K
   | Fault => goes_wrong C (St q L A s K)
   | _ => True
   end.
 
-Definition sim_exec (n : nat) : Prop := forall r st g next q brk cont L A s K,
-  menv r g L A -> wf g next -> next + ndecl st <= length L ->
-  code_at C q (compile_stmt fe fr g next q brk cont st) ->
-  stmt_post g next st q brk cont L A s K (exec n p r st).
+Definition sim_exec (n : nat) : Prop := forall r st g next q brk cont dc dr L A s K,
+  menv r g L A -> wf g next -> next + ndecl st <= length L -> dc <= dr -> dr <= length s ->
+  code_at C q (compile_stmt fe fr g next q brk cont dc dr st) ->
+  stmt_post g next st q brk cont dc dr L A s K (exec n p r st).
 
-Definition loop_code (g : cenv) (next start : nat) (c : expr) (po b : stmt) : code :=
+Definition loop_code (g : cenv) (next start dr : nat) (c : expr) (po b : stmt) : code :=
   let pbody := start + size_expr false c + 1 in
-  let ppost := pbody + size_stmt fr b in
-  let endl := ppost + size_stmt fr po + 1 in
-  compile_expr fe g start c MVal ++ IJmpIfNot endl :: compile_stmt fe fr g next pbody endl ppost b
-  ++ compile_stmt fe fr g (next + ndecl b) ppost endl ppost po ++ [IJmp start].
+  let ppost := pbody + size_stmt fr 0 dr b in
+  let endl := ppost + size_stmt fr 0 dr po + 1 in
+  compile_expr fe g start c MVal ++ IJmpIfNot endl :: compile_stmt fe fr g next pbody endl ppost 0 dr b
+  ++ compile_stmt fe fr g (next + ndecl b) ppost endl ppost 0 dr po ++ [IJmp start].
 
-Definition sim_loop (n : nat) : Prop := forall r c po b g next start L A s K,
-  menv r g L A -> wf g next -> next + ndecl b + ndecl po <= length L ->
-  code_at C start (loop_code g next start c po b) ->
+Definition sim_loop (n : nat) : Prop := forall r c po b g next start dr L A s K,
+  menv r g L A -> wf g next -> next + ndecl b + ndecl po <= length L -> dr <= length s ->
+  code_at C start (loop_code g next start dr c po b) ->
   match loop n p r c po b with
   | Ok (o, r') =>
       exists L' A', length L' = length L /\ length A' = length A /\ menv r' g L' A' /\
         match o with
         | ONormal => star C (St start L A s K)
-                       (St (start + size_expr false c + 1 + size_stmt fr b + size_stmt fr po + 1) L' A' s K)
-        | OReturn vs => exists qr, nth_error C qr = Some IRet /\ star C (St start L A s K) (St qr L' A' (vs ++ s) K)
+                       (St (start + size_expr false c + 1 + size_stmt fr 0 dr b + size_stmt fr 0 dr po + 1) L' A' s K)
+        | OReturn vs => exists qr, nth_error C qr = Some IRet /\
+                                   star C (St start L A s K) (St qr L' A' (vs ++ skipn dr s) K)
         | _ => False
         end
   | Fault => goes_wrong C (St start L A s K)
   | _ => True
   end.
 
-Definition sim_all (n : nat) : Prop := sim_expr n /\ sim_list n /\ sim_call n /\ sim_exec n /\ sim_loop n.
+(* the tests of one case clause: the tag stays on the stack; control ends at the body or behind the clause *)
+Definition sim_match (n : nat) : Prop := forall r (num : bool) tv es g q pstart pend L A s K,
+  menv r g L A -> pstart = q + size_tests es ->
+  code_at C q (compile_tests fe g q (if num then ICmp CEq else IEqual) pstart pend es) ->
+  match match_any n p r num tv es with
+  | Ok m => es <> [] -> star C (St q L A (tv :: s) K) (St (if m then pstart else pend) L A (tv :: s) K)
+  | Fault => goes_wrong C (St q L A (tv :: s) K)
+  | _ => True
+  end.
+
+(* the clauses of a switch, entered with the tag on the stack; [swend] is the DROP that ends the switch *)
+Definition sim_cases (n : nat) : Prop := forall r tv cs g next q swend cont dc dr L A s K,
+  menv r g L A -> wf g next -> next + ndecl cs <= length L -> dc <= dr -> dr <= length s ->
+  code_at C q (compile_stmt fe fr g next q swend cont dc dr cs) ->
+  swend = q + size_stmt fr dc dr cs ->
+  match exec_cases n p r tv cs with
+  | Ok (o, r') =>
+      exists ext L' A', length L' = length L /\ length A' = length A /\ menv r' (ext ++ g) L' A' /\
+        out_post o swend swend cont (S dc) (S dr) (St q L A (tv :: s) K) L' A' (tv :: s) K
+  | Fault => goes_wrong C (St q L A (tv :: s) K)
+  | _ => True
+  end.
+
+Definition sim_all (n : nat) : Prop :=
+  sim_expr n /\ sim_list n /\ sim_call n /\ sim_exec n /\ sim_loop n /\ sim_match n /\ sim_cases n.
 
 Lemma sim_all_0 : sim_all 0.
 Proof. repeat split; red; intros; simpl; exact I. Qed.
@@ -306,9 +343,9 @@ Proof.
   destruct (Bool.eqb b cond); pceq.
 Qed.
 
-Lemma block_of_stmt g next st q brk cont L A s K res k :
-  stmt_post g next st q brk cont L A s K res -> k = length g ->
-  block_post g (q + size_stmt fr st) q brk cont L A s K
+Lemma block_of_stmt g next st q brk cont dc dr L A s K res k :
+  stmt_post g next st q brk cont dc dr L A s K res -> k = length g ->
+  block_post g (q + size_stmt fr dc dr st) q brk cont dc dr L A s K
     (bind res (fun or => Ok (fst or, truncate k (snd or)))).
 Proof.
   intros H ->. destruct res as [[o r']| | |]; simpl in *; auto.
@@ -555,8 +592,8 @@ Proof.
       + rewrite firstn_app, skipn_app, firstn_all, skipn_all, Nat.sub_diag. simpl. rewrite app_nil_r. pceq. }
   assert (Hm : menv (combine (f_params fn) vs) (params_env 0 (f_params fn)) (repeat VNull (ndecl (f_body fn))) vs)
     by (apply (menv_params _ (f_params fn) vs [] Hlen)).
-  assert (IH := IHx _ (f_body fn) _ 0 (fe f + length (prologue fn)) 0 0 _ _ s K Hm (wf_params _ 0)).
-  rewrite repeat_length in IH. specialize (IH (Nat.le_refl _) Hbody).
+  assert (IH := IHx _ (f_body fn) _ 0 (fe f + length (prologue fn)) 0 0 0 0 _ _ s K Hm (wf_params _ 0)).
+  rewrite repeat_length in IH. specialize (IH (Nat.le_refl _) (Nat.le_refl _) (Nat.le_0_l _) Hbody).
   destruct (exec n p (combine (f_params fn) vs) (f_body fn)) as [[o r']| | |]; cbn [bind]; try exact I.
   - simpl fst. destruct o as [| | |rs]; try exact I.
     destruct (Nat.eqb_spec (length rs) (f_nres fn)) as [Hn|]; [|exact I].
@@ -565,12 +602,12 @@ Proof.
   - eapply goes_wrong_star; eauto.
 Qed.
 
-Lemma stmt_of_block g next st q q0 qn0 brk cont L A s K res :
+Lemma stmt_of_block g next st q q0 qn0 brk cont dc dr L A s K res :
   star C (St q L A s K) (St q0 L A s K) ->
-  block_post g qn0 q0 brk cont L A s K res ->
-  (forall L' A', star C (St qn0 L' A' s K) (St (q + size_stmt fr st) L' A' s K)) ->
+  block_post g qn0 q0 brk cont dc dr L A s K res ->
+  (forall L' A', star C (St qn0 L' A' s K) (St (q + size_stmt fr dc dr st) L' A' s K)) ->
   env_after g next st = g ->
-  stmt_post g next st q brk cont L A s K res.
+  stmt_post g next st q brk cont dc dr L A s K res.
 Proof.
   intros Hpre Hb Hk Henv. destruct res as [[o r']| | |]; simpl in *; auto.
   - destruct Hb as (L' & A' & HL & HA & Hm & Ho). exists [], L', A'.
@@ -593,6 +630,16 @@ Proof.
   - rewrite Nat.add_0_r. apply star_refl.
   - apply code_at_cons in Hc. destruct Hc as [Hi Hc].
     eapply star_trans; [eapply x_drop; exact Hi|]. eapply star_eq; [apply IH; exact Hc|]. pceq.
+Qed.
+
+Lemma x_dropn k : forall q L A s K, code_at C q (repeat IDrop k) -> k <= length s ->
+  star C (St q L A s K) (St (q + k) L A (skipn k s) K).
+Proof.
+  induction k as [|k IH]; intros q L A s K Hc Hk; simpl in *.
+  - rewrite Nat.add_0_r. apply star_refl.
+  - destruct s as [|v s]; simpl in Hk; [lia|].
+    apply code_at_cons in Hc. destruct Hc as [Hi Hc].
+    eapply star_trans; [eapply x_drop; exact Hi|]. eapply star_eq; [apply IH; [exact Hc|lia]|]. pceq.
 Qed.
 
 Lemma x_reversen q vs L A s K :
@@ -656,20 +703,21 @@ Ltac ok_same L A Hm :=
 
 Lemma sim_exec_step n : sim_all n -> sim_exec (S n).
 Proof.
-  intros (IHe & IHl & IHc & IHx & IHlp) r st g next q brk cont L A s K Hm Hwf Hle Hc.
+  intros (IHe & IHl & IHc & IHx & IHlp & IHmt & IHcs) r st g next q brk cont dc dr L A s K Hm Hwf Hle Hdc Hdr Hc.
   pose proof (menv_length _ _ _ _ Hm) as Hrg.
-  destruct st as [|a b|x e|x e|x op e|x|x|c a|c a b|i c po b| | |es|a|f es|decl xs f es]; simpl exec; simpl in Hle.
+  destruct st as [|a b|x e|x e|x op e|x|x|c a|c a b|i c po b| | |es|a|f es|decl xs f es|tag cs| |b|num es b rest];
+    simpl exec; simpl in Hle.
   - (* SSkip *)
     ok_post (@nil (ident * slot)) L A; auto. simpl. eapply star_eq; [apply star_refl|pceq].
   - (* SSeq *)
     simpl in Hc. split_code.
-    assert (IHa := IHx r a g next q brk cont L A s K Hm Hwf ltac:(lia) Hc0).
+    assert (IHa := IHx r a g next q brk cont dc dr L A s K Hm Hwf ltac:(lia) Hdc Hdr Hc0).
     destruct (exec n p r a) as [[o1 r1]| | |]; cbn [bind]; [|exact IHa|exact I|exact I].
     destruct IHa as (ext1 & L1 & A1 & HL1 & HA1 & Hm1 & Henv1 & Ho1). simpl fst; simpl snd.
     destruct o1.
     + specialize (Henv1 eq_refl). rewrite Henv1 in Hm1.
-      assert (IHb := IHx r1 b (env_after g next a) (next + ndecl a) (q + size_stmt fr a) brk cont L1 A1 s K
-                         Hm1 (wf_env_after _ _ _ Hwf) ltac:(lia) Hc).
+      assert (IHb := IHx r1 b (env_after g next a) (next + ndecl a) (q + size_stmt fr dc dr a) brk cont dc dr L1 A1 s K
+                         Hm1 (wf_env_after _ _ _ Hwf) ltac:(lia) Hdc ltac:(lia) Hc).
       destruct (exec n p r1 b) as [[o2 r2]| | |]; [|eapply goes_wrong_star; [exact Ho1|exact IHb]|exact I|exact I].
       destruct IHb as (ext2 & L2 & A2 & HL2 & HA2 & Hm2 & Henv2 & Ho2).
       ok_post (ext2 ++ ext1) L2 A2; try lia.
@@ -761,7 +809,7 @@ Proof.
     assert (IHcd := IHe r c _ g q L A s K Hm Hc0).
     destruct (eval n p r c) as [v| | |]; cbn [bind]; [|exact IHcd|exact I|exact I].
     destruct v as [|bc|]; try exact I. specialize (IHcd bc eq_refl). destruct bc; simpl in IHcd.
-    + assert (IHa := IHx r a g next (q + size_expr true c) brk cont L A s K Hm Hwf ltac:(lia) Hc).
+    + assert (IHa := IHx r a g next (q + size_expr true c) brk cont dc dr L A s K Hm Hwf ltac:(lia) Hdc Hdr Hc).
       apply block_of_stmt with (k := length r) in IHa; [|exact Hrg].
       eapply stmt_of_block; [exact IHcd|exact IHa| |reflexivity].
       intros L' A'. eapply star_eq; [apply star_refl|pceq].
@@ -771,24 +819,24 @@ Proof.
     assert (IHcd := IHe r c _ g q L A s K Hm Hc0).
     destruct (eval n p r c) as [v| | |]; cbn [bind]; [|exact IHcd|exact I|exact I].
     destruct v as [|bc|]; try exact I. specialize (IHcd bc eq_refl). destruct bc; simpl in IHcd.
-    + assert (IHa := IHx r a g next (q + size_expr true c) brk cont L A s K Hm Hwf ltac:(lia) Hc1).
+    + assert (IHa := IHx r a g next (q + size_expr true c) brk cont dc dr L A s K Hm Hwf ltac:(lia) Hdc Hdr Hc1).
       apply block_of_stmt with (k := length r) in IHa; [|exact Hrg].
       eapply stmt_of_block; [exact IHcd|exact IHa| |reflexivity].
       intros L' A'. xlast x_jmp. pceq.
-    + replace (S (q + size_expr true c + size_stmt fr a)) with (q + size_expr true c + size_stmt fr a + 1) in Hc by lia.
-      assert (IHb := IHx r b g (next + ndecl a) (q + size_expr true c + size_stmt fr a + 1) brk cont L A s K Hm
-                         (wf_mono g next (next + ndecl a) Hwf ltac:(lia)) ltac:(lia) Hc).
+    + replace (S (q + size_expr true c + size_stmt fr dc dr a)) with (q + size_expr true c + size_stmt fr dc dr a + 1) in Hc by lia.
+      assert (IHb := IHx r b g (next + ndecl a) (q + size_expr true c + size_stmt fr dc dr a + 1) brk cont dc dr L A s K Hm
+                         (wf_mono g next (next + ndecl a) Hwf ltac:(lia)) ltac:(lia) Hdc Hdr Hc).
       apply block_of_stmt with (k := length r) in IHb; [|exact Hrg].
       eapply stmt_of_block; [exact IHcd|exact IHb| |reflexivity].
       intros L' A'. eapply star_eq; [apply star_refl|pceq].
   - (* SFor *)
     simpl in Hc. apply code_at_app in Hc. destruct Hc as [Hci Hloop]. rewrite length_compile_stmt in Hloop.
-    assert (IHi := IHx r i g next q brk cont L A s K Hm Hwf ltac:(lia) Hci).
+    assert (IHi := IHx r i g next q brk cont dc dr L A s K Hm Hwf ltac:(lia) Hdc Hdr Hci).
     destruct (exec n p r i) as [[oi r1]| | |]; cbn [bind]; [|exact IHi|exact I|exact I].
     destruct IHi as (ext1 & L1 & A1 & HL1 & HA1 & Hm1 & Henv1 & Ho1). simpl fst; simpl snd.
     destruct oi; try exact I. specialize (Henv1 eq_refl). rewrite Henv1 in Hm1. simpl in Ho1.
-    assert (IHL := IHlp r1 c po b (env_after g next i) (next + ndecl i) (q + size_stmt fr i) L1 A1 s K
-                        Hm1 (wf_env_after _ _ _ Hwf) ltac:(lia) Hloop).
+    assert (IHL := IHlp r1 c po b (env_after g next i) (next + ndecl i) (q + size_stmt fr dc dr i) dr L1 A1 s K
+                        Hm1 (wf_env_after _ _ _ Hwf) ltac:(lia) Hdr Hloop).
     destruct (loop n p r1 c po b) as [[o2 r2]| | |]; cbn [bind];
       [|eapply goes_wrong_star; [exact Ho1|exact IHL]|exact I|exact I].
     destruct IHL as (L2 & A2 & HL2 & HA2 & Hm2 & Ho2). simpl fst; simpl snd.
@@ -801,15 +849,18 @@ Proof.
   - (* SBreak *)
     simpl in Hc. split_code. ok_same L A Hm. eapply x_jmp; eauto.
   - (* SContinue *)
-    simpl in Hc. split_code. ok_same L A Hm. eapply x_jmp; eauto.
+    simpl in Hc. split_code. rewrite repeat_length in *. ok_same L A Hm.
+    eapply star_trans; [apply x_dropn; [exact Hc0|lia]|]. eapply x_jmp; eauto.
   - (* SReturn *)
-    simpl in Hc. split_code.
-    assert (IHL := IHl r (rev es) g q L A s K Hm Hc0).
-    destruct (eval_list n p r (rev es)) as [vs| | |]; cbn [bind]; [|exact IHL|exact I|exact I].
-    ok_same L A Hm. eauto.
+    simpl in Hc. split_code. rewrite repeat_length in *.
+    assert (Hd : star C (St q L A s K) (St (q + dr) L A (skipn dr s) K)) by (apply x_dropn; [exact Hc0|lia]).
+    assert (IHL := IHl r (rev es) g (q + dr) L A (skipn dr s) K Hm Hc1).
+    destruct (eval_list n p r (rev es)) as [vs| | |]; cbn [bind];
+      [|eapply goes_wrong_star; [exact Hd|exact IHL]|exact I|exact I].
+    ok_same L A Hm. eexists; split; [exact Hi|]. eapply star_trans; [exact Hd|exact IHL].
   - (* SBlock *)
     simpl in Hc.
-    assert (IHa := IHx r a g next q brk cont L A s K Hm Hwf ltac:(lia) Hc).
+    assert (IHa := IHx r a g next q brk cont dc dr L A s K Hm Hwf ltac:(lia) Hdc Hdr Hc).
     apply block_of_stmt with (k := length r) in IHa; [|exact Hrg].
     eapply stmt_of_block; [apply star_refl|exact IHa| |reflexivity].
     intros L' A'. apply star_refl.
@@ -854,11 +905,48 @@ Proof.
       * exact Hm'.
       * intros _. reflexivity.
       * simpl. eapply star_trans; [exact Hrv|]. eapply star_eq; [exact Hst2|]. rewrite rev_length. unfold q1. pceq.
+  - (* SSwitch *)
+    assert (Hrest : forall tv qs,
+      code_at C qs (compile_stmt fe fr g next qs (qs + size_stmt fr dc dr cs) cont dc dr cs) ->
+      nth_error C (qs + size_stmt fr dc dr cs) = Some IDrop ->
+      star C (St q L A s K) (St qs L A (tv :: s) K) ->
+      qs + size_stmt fr dc dr cs + 1 = q + size_stmt fr dc dr (SSwitch tag cs) ->
+      stmt_post g next (SSwitch tag cs) q brk cont dc dr L A s K
+        (bind (exec_cases n p r tv cs) (fun or =>
+           let r1 := truncate (length r) (snd or) in
+           match fst or with OBreak => Ok (ONormal, r1) | o => Ok (o, r1) end))).
+    { intros tv qs Hcs Hdrop Htag Hsz.
+      assert (IH := IHcs r tv cs g next qs (qs + size_stmt fr dc dr cs) cont dc dr L A s K Hm Hwf Hle Hdc Hdr Hcs eq_refl).
+      destruct (exec_cases n p r tv cs) as [[o r1]| | |]; cbn [bind];
+        [|eapply goes_wrong_star; [exact Htag|exact IH]|exact I|exact I].
+      destruct IH as (ext & L' & A' & HL & HA & Hm' & Ho). simpl fst; simpl snd.
+      assert (Hmt : menv (truncate (length r) r1) g L' A') by (eapply menv_truncate; eauto).
+      assert (Hend : forall L2 A2, star C (St (qs + size_stmt fr dc dr cs) L2 A2 (tv :: s) K)
+                                       (St (q + size_stmt fr dc dr (SSwitch tag cs)) L2 A2 s K)).
+      { intros L2 A2. eapply star_eq; [eapply x_drop; exact Hdrop|]. f_equal. lia. }
+      destruct o; simpl in Ho;
+        (ok_post (@nil (ident * slot)) L' A';
+          [exact HL|exact HA|exact Hmt|let E := fresh in intros E; first [discriminate E|reflexivity]|simpl]).
+      - eapply star_trans; [exact Htag|]. eapply star_trans; [exact Ho|apply Hend].
+      - eapply star_trans; [exact Htag|]. eapply star_trans; [exact Ho|apply Hend].
+      - eapply star_trans; [exact Htag|exact Ho].
+      - destruct Ho as (qr & ? & ?). exists qr; split; auto. eapply star_trans; [exact Htag|eassumption]. }
+    destruct tag as [e|]; simpl in Hc; split_code.
+    + assert (IHt := IHe r e MVal g q L A s K Hm Hc0).
+      destruct (eval n p r e) as [tv| | |]; cbn [bind]; [|exact IHt|exact I|exact I].
+      apply (Hrest tv (q + size_expr false e)); auto. simpl. lia.
+    + replace (S q) with (q + 1) in * by lia.
+      apply (Hrest (VBool true) (q + 1)); auto.
+      * eapply star_eq; [apply x_pushb; exact Hi|]. pceq.
+      * simpl. lia.
+  - exact I.
+  - exact I.
+  - exact I.
 Qed.
 
 Lemma sim_loop_step n : sim_all n -> sim_loop (S n).
 Proof.
-  intros (IHe & _ & _ & IHx & IHlp) r c po b g next start L A s K Hm Hwf Hle Hcode.
+  intros (IHe & _ & _ & IHx & IHlp & _ & _) r c po b g next start dr L A s K Hm Hwf Hle Hdr Hcode.
   pose proof (menv_length _ _ _ _ Hm) as Hrg.
   pose proof Hcode as Hc. unfold loop_code in Hc. cbv zeta in Hc. split_code.
   replace (S (start + size_expr false c)) with (start + size_expr false c + 1) in * by lia.
@@ -869,12 +957,12 @@ Proof.
   - (* condition true *)
     assert (Hcond : star C (St start L A s K) (St (start + size_expr false c + 1) L A s K)).
     { eapply star_trans; [exact IHc|]. eapply star_eq; [eapply x_jmpifnot; eauto|]. pceq. }
-    assert (IHb := IHx r b g next _ _ _ L A s K Hm Hwf ltac:(lia) Hc1).
+    assert (IHb := IHx r b g next _ _ _ 0 dr L A s K Hm Hwf ltac:(lia) (Nat.le_0_l _) Hdr Hc1).
     apply block_of_stmt with (k := length r) in IHb; [|exact Hrg].
     destruct (exec n p r b) as [[ob rb]| | |]; cbn [bind] in *;
       [|eapply goes_wrong_star; [exact Hcond|exact IHb]|exact I|exact I].
     destruct IHb as (L1 & A1 & HL1 & HA1 & Hm1 & Ho1). simpl fst in *; simpl snd in *.
-    assert (Hcont : star C (St start L A s K) (St (start + size_expr false c + 1 + size_stmt fr b) L1 A1 s K) ->
+    assert (Hcont : star C (St start L A s K) (St (start + size_expr false c + 1 + size_stmt fr 0 dr b) L1 A1 s K) ->
       match bind (exec n p (truncate (length r) rb) po)
               (fun or2 => match fst or2 with
                           | ONormal => loop n p (truncate (length r) (snd or2)) c po b
@@ -883,17 +971,17 @@ Proof.
           exists L' A', length L' = length L /\ length A' = length A /\ menv r' g L' A' /\
             match o with
             | ONormal => star C (St start L A s K)
-                           (St (start + size_expr false c + 1 + size_stmt fr b + size_stmt fr po + 1) L' A' s K)
-            | OReturn v => exists qr, nth_error C qr = Some IRet /\ star C (St start L A s K) (St qr L' A' (v ++ s) K)
+                           (St (start + size_expr false c + 1 + size_stmt fr 0 dr b + size_stmt fr 0 dr po + 1) L' A' s K)
+            | OReturn v => exists qr, nth_error C qr = Some IRet /\ star C (St start L A s K) (St qr L' A' (v ++ skipn dr s) K)
             | _ => False
             end
       | Fault => goes_wrong C (St start L A s K)
       | _ => True
       end).
     { intros Hat.
-      assert (IHp := IHx (truncate (length r) rb) po g (next + ndecl b) _ (start + size_expr false c + 1 + size_stmt fr b + size_stmt fr po + 1)
-                         (start + size_expr false c + 1 + size_stmt fr b) L1 A1 s K Hm1
-                         (wf_mono g next (next + ndecl b) Hwf ltac:(lia)) ltac:(lia) Hc2).
+      assert (IHp := IHx (truncate (length r) rb) po g (next + ndecl b) _ (start + size_expr false c + 1 + size_stmt fr 0 dr b + size_stmt fr 0 dr po + 1)
+                         (start + size_expr false c + 1 + size_stmt fr 0 dr b) 0 dr L1 A1 s K Hm1
+                         (wf_mono g next (next + ndecl b) Hwf ltac:(lia)) ltac:(lia) (Nat.le_0_l _) Hdr Hc2).
       apply block_of_stmt with (k := length r) in IHp; [|exact Hrg].
       destruct (exec n p (truncate (length r) rb) po) as [[op rp]| | |]; cbn [bind] in *;
         [|eapply goes_wrong_star; [exact Hat|exact IHp]|exact I|exact I].
@@ -901,7 +989,7 @@ Proof.
       destruct op; try exact I. simpl in Ho2.
       assert (Hback : star C (St start L A s K) (St start L2 A2 s K)).
       { eapply star_trans; [exact Hat|]. eapply star_trans; [exact Ho2|]. xstep x_jmp. }
-      assert (IHL := IHlp (truncate (length r) rp) c po b g next start L2 A2 s K Hm2 Hwf ltac:(lia) Hcode).
+      assert (IHL := IHlp (truncate (length r) rp) c po b g next start dr L2 A2 s K Hm2 Hwf ltac:(lia) Hdr Hcode).
       destruct (loop n p (truncate (length r) rp) c po b) as [[o3 r3]| | |];
         [|eapply goes_wrong_star; [exact Hback|exact IHL]|exact I|exact I].
       destruct IHL as (L3 & A3 & HL3 & HA3 & Hm3 & Ho3).
@@ -921,10 +1009,118 @@ Proof.
     eapply star_trans; [exact IHc|]. eapply star_eq; [eapply x_jmpifnot; eauto|]. pceq.
 Qed.
 
+Lemma sim_match_step n : sim_all n -> sim_match (S n).
+Proof.
+  intros (IHe & _ & _ & _ & _ & IHmt & _) r num tv es g q pstart pend L A s K Hm Hps Hc.
+  destruct es as [|e t]; simpl match_any; [intros H; congruence|].
+  (* the first test: DUP e EQ; the jump differs between the last expression and the others *)
+  assert (Hfirst : forall jmp rest, code_at C q (IDup :: compile_expr fe g (q + 1) e MVal ++ [if num then ICmp CEq else IEqual; jmp] ++ rest) ->
+    match eval n p r e with
+    | Ok v => forall m, val_match num tv v = Ok m ->
+        nth_error C (q + size_expr false e + 2) = Some jmp /\
+        star C (St q L A (tv :: s) K) (St (q + size_expr false e + 2) L A (VBool m :: tv :: s) K)
+    | Fault => goes_wrong C (St q L A (tv :: s) K)
+    | _ => True
+    end).
+  { intros jmp rest Hcode. split_code. replace (S q) with (q + 1) in * by lia.
+    assert (Hd : star C (St q L A (tv :: s) K) (St (q + 1) L A (tv :: tv :: s) K))
+      by (eapply star_eq; [apply x_dup; exact Hi|pceq]).
+    assert (IH := IHe r e MVal g (q + 1) L A (tv :: tv :: s) K Hm Hc0).
+    destruct (eval n p r e) as [v| | |]; [|eapply goes_wrong_star; [exact Hd|exact IH]|exact I|exact I].
+    intros m Hvm. split.
+    - replace (q + size_expr false e + 2) with (S (q + 1 + size_expr false e)) by lia. exact Hi1.
+    - eapply star_trans; [exact Hd|]. eapply star_trans; [exact IH|].
+      eapply star_eq; [eapply x_eq; [exact Hi0|exact Hvm]|]. pceq. }
+  destruct t as [|e2 t].
+  - simpl in Hc. specialize (Hfirst (IJmpIfNot pend) []). rewrite app_nil_r in Hfirst. specialize (Hfirst Hc).
+    destruct (eval n p r e) as [v| | |]; cbn [bind]; [|exact Hfirst|exact I|exact I].
+    destruct (val_match num tv v) as [m| | |] eqn:Evm; cbn [bind]; try exact I;
+      [|exfalso; clear - Evm; destruct num, tv, v; simpl in Evm; discriminate].
+    destruct (Hfirst m eq_refl) as [Hj Hst].
+    destruct m.
+    + intros _. eapply star_trans; [exact Hst|]. eapply star_eq; [eapply x_jmpifnot; exact Hj|].
+      simpl in Hps. subst pstart. pceq.
+    + destruct n; simpl; [exact I|]. intros _.
+      eapply star_trans; [exact Hst|]. eapply star_eq; [eapply x_jmpifnot; exact Hj|]. reflexivity.
+  - rewrite compile_tests_cons2 in Hc.
+    specialize (Hfirst (IJmpIf pstart) _ Hc).
+    destruct (eval n p r e) as [v| | |]; cbn [bind]; [|exact Hfirst|exact I|exact I].
+    destruct (val_match num tv v) as [m| | |] eqn:Evm; cbn [bind]; try exact I;
+      [|exfalso; clear - Evm; destruct num, tv, v; simpl in Evm; discriminate].
+    destruct (Hfirst m eq_refl) as [Hj Hst].
+    destruct m.
+    + intros _. eapply star_trans; [exact Hst|]. eapply star_eq; [eapply (x_jmp_on _ _ true); exact Hj|]. reflexivity.
+    + assert (Hc2 : code_at C (q + size_expr false e + 3)
+                      (compile_tests fe g (q + size_expr false e + 3) (if num then ICmp CEq else IEqual) pstart pend (e2 :: t))).
+      { apply code_at_cons in Hc. destruct Hc as [_ Hc]. apply code_at_app in Hc. destruct Hc as [_ Hc].
+        apply code_at_app in Hc. destruct Hc as [_ Hc]. rewrite length_compile_expr in Hc. cbn [length is_jmp] in Hc.
+        replace (S q + size_expr false e + 2) with (q + size_expr false e + 3) in Hc by lia. exact Hc. }
+      assert (IH := IHmt r num tv (e2 :: t) g (q + size_expr false e + 3) pstart pend L A s K Hm
+                         ltac:(rewrite size_tests_cons in Hps; lia) Hc2).
+      destruct (match_any n p r num tv (e2 :: t)) as [m2| | |]; try exact I.
+      * intros _. eapply star_trans; [exact Hst|].
+        eapply star_trans; [eapply star_eq; [eapply (x_jmp_on _ _ true); exact Hj|reflexivity]|].
+        simpl. replace (S (q + size_expr false e + 2)) with (q + size_expr false e + 3) by lia.
+        apply IH. discriminate.
+      * eapply goes_wrong_star; [exact Hst|].
+        eapply goes_wrong_star; [eapply star_eq; [eapply (x_jmp_on _ _ true); exact Hj|reflexivity]|].
+        simpl. replace (S (q + size_expr false e + 2)) with (q + size_expr false e + 3) by lia. exact IH.
+Qed.
+
+Lemma sim_cases_step n : sim_all n -> sim_cases (S n).
+Proof.
+  intros (_ & _ & _ & IHx & _ & IHmt & IHcs) r tv cs g next q swend cont dc dr L A s K Hm Hwf Hle Hdc Hdr Hc Hsw.
+  destruct cs; simpl exec_cases; try exact I; simpl in Hle, Hsw, Hc.
+  - (* CNil *)
+    exists (@nil (ident * slot)), L, A. repeat split; auto. simpl. subst swend. rewrite Nat.add_0_r. apply star_refl.
+  - (* CDefault *)
+    assert (IH := IHx r cs g next q swend cont (S dc) (S dr) L A (tv :: s) K Hm Hwf Hle ltac:(lia) ltac:(simpl; lia) Hc).
+    destruct (exec n p r cs) as [[o r']| | |]; try exact IH; try exact I.
+    destruct IH as (ext & L' & A' & HL & HA & Hm' & _ & Ho).
+    exists ext, L', A'. repeat split; auto. subst swend. exact Ho.
+  - (* CCase *)
+    destruct es as [|e0 es0]; [exact I|]. remember (e0 :: es0) as es1 eqn:Hes1.
+    apply code_at_app in Hc. destruct Hc as [Htests Hc]. rewrite length_compile_tests in Hc.
+    apply code_at_app in Hc. destruct Hc as [Hbody Hc]. rewrite length_compile_stmt in Hc.
+    apply code_at_app in Hc. destruct Hc as [Hjmp Hrest].
+    assert (IHt := IHmt r num tv es1 g q _ _ L A s K Hm eq_refl Htests).
+    destruct (match_any n p r num tv es1) as [m| | |]; cbn [bind]; [|exact IHt|exact I|exact I].
+    specialize (IHt ltac:(subst es1; discriminate)).
+    destruct m.
+    + (* the body of this clause *)
+      assert (IH := IHx r cs1 g next (q + size_tests es1) swend cont (S dc) (S dr) L A (tv :: s) K Hm Hwf ltac:(lia)
+                        ltac:(lia) ltac:(simpl; lia) Hbody).
+      destruct (exec n p r cs1) as [[o r']| | |]; [|eapply goes_wrong_star; [exact IHt|exact IH]|exact I|exact I].
+      destruct IH as (ext & L' & A' & HL & HA & Hm' & _ & Ho).
+      exists ext, L', A'. split; [exact HL|]. split; [exact HA|]. split; [exact Hm'|].
+      destruct o; simpl in Ho |- *.
+      * eapply star_trans; [exact IHt|]. eapply star_trans; [exact Ho|].
+        destruct (is_nil cs2) eqn:En.
+        -- destruct cs2; try discriminate. simpl in Hsw. eapply star_eq; [apply star_refl|]. f_equal. lia.
+        -- apply code_at_cons in Hjmp. destruct Hjmp as [Hj _]. eapply x_jmp. exact Hj.
+      * eapply star_trans; [exact IHt|exact Ho].
+      * eapply star_trans; [exact IHt|exact Ho].
+      * destruct Ho as (qr & ? & ?). exists qr; split; auto. eapply star_trans; [exact IHt|eassumption].
+    + (* the following clauses *)
+      assert (Hr2 : code_at C (q + size_tests es1 + size_stmt fr (S dc) (S dr) cs1 + (if is_nil cs2 then 0 else 1))
+                      (compile_stmt fe fr g (next + ndecl cs1)
+                         (q + size_tests es1 + size_stmt fr (S dc) (S dr) cs1 + (if is_nil cs2 then 0 else 1))
+                         swend cont dc dr cs2)).
+      { destruct (is_nil cs2); cbn [length] in Hrest; exact Hrest. }
+      assert (IH := IHcs r tv cs2 g (next + ndecl cs1) _ swend cont dc dr L A s K Hm
+                         (wf_mono g next (next + ndecl cs1) Hwf ltac:(lia)) ltac:(lia) Hdc Hdr Hr2 ltac:(lia)).
+      destruct (exec_cases n p r tv cs2) as [[o r']| | |]; [|eapply goes_wrong_star; [exact IHt|exact IH]|exact I|exact I].
+      destruct IH as (ext & L' & A' & HL & HA & Hm' & Ho).
+      exists ext, L', A'. split; [exact HL|]. split; [exact HA|]. split; [exact Hm'|].
+      destruct o; simpl in Ho |- *; try (eapply star_trans; [exact IHt|exact Ho]).
+      destruct Ho as (qr & ? & ?). exists qr; split; auto. eapply star_trans; [exact IHt|eassumption].
+Qed.
+
 Lemma sim_all_n n : sim_all n.
 Proof.
   induction n; [apply sim_all_0|].
-  repeat split; [apply sim_expr_step|apply sim_list_step|apply sim_call_step|apply sim_exec_step|apply sim_loop_step]; exact IHn.
+  repeat split; [apply sim_expr_step|apply sim_list_step|apply sim_call_step|apply sim_exec_step|apply sim_loop_step
+                |apply sim_match_step|apply sim_cases_step]; exact IHn.
 Qed.
 
 End Sim.
